@@ -201,10 +201,12 @@ def build_harness(profile="release"):
     hdir, target = harness_dir()
     lock = os.path.join(hdir, "Cargo.lock")
     with Lock("cargo"):
-        if not os.path.exists(lock) or open(lock).read() != open(os.path.join(REPO, "Cargo.lock")).read():
+        if not os.path.exists(lock):
             # the lock file is the repository's own (offline resolution of the same crate versions)
-            if not os.path.exists(lock):
-                open(lock, "w").write(open(os.path.join(REPO, "Cargo.lock")).read())
+            for cand in (os.path.join(REPO, "Cargo.lock"), "/repo/Cargo.lock"):
+                if os.path.exists(cand):
+                    open(lock, "w").write(open(cand).read())
+                    break
         cmd = ["cargo", "build", "--offline", "--quiet"] + (["--release"] if profile == "release" else [])
         rc, out = sh(cmd, 3000, cwd=hdir,
                      env={"CARGO_TARGET_DIR": target, "RUSTFLAGS": "--cfg monero_rs_verif -Awarnings"})
